@@ -26,14 +26,32 @@ def make_copy(name):
 
 
 def apply_edits(d, edits):
+	native = set()
 	for e in edits:
 		p = d / e['file']
+		if p.suffix == '.c':
+			native.add(p)
+		if 'line' in e:
+			lines = p.read_text().split('\n')
+			l = lines[e['line'] - 1]
+			if l.count(e['old']) != 1:
+				raise SystemExit(f'line edit does not apply: {e["file"]}:{e["line"]}: {l!r} vs {e["old"]!r}')
+			lines[e['line'] - 1] = l.replace(e['old'], e['new'])
+			p.write_text('\n'.join(lines))
+			continue
 		s = p.read_text()
 		cnt = s.count(e['old'])
 		want = e.get('count', 1)
+		if want == 'any' and cnt > 0:
+			want = cnt
 		if cnt != want:
 			raise SystemExit(f'mutation edit does not apply: {e["file"]}: {cnt} occurrences of {e["old"]!r}, expected {want}')
 		p.write_text(s.replace(e['old'], e['new']))
+	if native:
+		from vf import native as N
+		for c in native:
+			so = c.with_name(c.stem + N.EXT)
+			N.compile_module(c, so, 'plain')
 
 
 def run_checks(d, props, tier='quick', seed=0):
@@ -56,6 +74,9 @@ def one(m, tier='quick', seed=0, keep=False):
 	finally:
 		if not keep:
 			shutil.rmtree(d, ignore_errors=True)
+			for r in (VERIF / '.native').glob('*/.repo'):
+				if r.read_text() == str(d):
+					shutil.rmtree(r.parent, ignore_errors=True)
 	expect = m.get('expect', 'caught')
 	caught = any(r['rc'] == 1 for r in res.values())
 	ok = (caught and expect == 'caught') or (not caught and expect == 'silent' and all(r['rc'] == 0 for r in res.values()))
